@@ -86,9 +86,16 @@ def gen():
     out.append("Definition new_scale : N := %s.\nDefinition new_all_zero : bool := %s.\n" % (F.coq_int(int(m.group(1))), m.group(3)))
     b = F.fn_body(s, "add", SN)
     m = re.search(r"if\s+" + F.cmp_alt(r"self\.scale", "length", "fit", (">=", ">", "<=", "<", "==")) + r"\s*\{\s*self\.fill_zero\(self\.scale\s*-\s*length\)", b)
+    fit = F.cmp_op(m, "fit") if m else None
+    if not m:
+        # the same test as a guard clause: `if self.scale <negated cmp> length { return false; }` in front of the fill
+        m = re.search(r"if\s+" + F.cmp_alt(r"self\.scale", "length", "fit", (">=", ">", "<=", "<")) +
+                      r"\s*\{\s*return\s+false;\s*\}\s*self\.fill_zero\(self\.scale\s*-\s*length\)", b)
+        if m:
+            fit = {"<": ">=", "<=": ">", ">": "<=", ">=": "<"}[F.cmp_op(m, "fit")]
     if not m:
         raise F.FactError("StringNumber::add: fit test `self.scale >= length` not recognised")
-    out.append("(* add succeeds when scale <cmp> int_length(addend) *)\nDefinition add_fit_cmp : cmp := %s.\n" % CMP[F.cmp_op(m, "fit")])
+    out.append("(* add succeeds when scale <cmp> int_length(addend) *)\nDefinition add_fit_cmp : cmp := %s.\n" % CMP[fit])
     b = F.fn_body(s, "set_point", SN)
     m = re.search(r"if\s+self\.scale\s*==\s*(\d+)\s*&&\s*self\.point\s*<\s*(\d+)\s*\{\s*self\.point\s*=\s*self\.significand\.len\(\)", b)
     if not m or m.group(1) != "0" or m.group(2) != "0":
